@@ -1,6 +1,7 @@
 import FractopoModel.Model.Validation
 import FractopoModel.Spec.Validators
 import FractopoModel.Generated.ValidatorTable
+import FractopoModel.Generated.ValidateStep
 /-!
 # C09 — validation only annotates
 
@@ -83,7 +84,7 @@ theorem applyFail_inv (O : Oracle G) (cfg : Cfg) (vs : List Validator) (v : Vali
 theorem validateOne_inv (O : Oracle G) (cfg : Cfg) (frame : List G) (idx : Nat) (vs : List Validator) (v : Validator) (hv : v ∈ vs)
     (s : RowSt G) (h : Inv O vs s) : Inv O vs (validateOne O cfg frame idx v s) := by
   unfold validateOne
-  by_cases h1 : (v.lsOnly && !(O.kind s.geom).isLineString) = true
+  by_cases h1 : (v.lsOnly && !(O.kind s.geom).gatePass) = true
   · simp only [h1, if_true]; exact ⟨h.nodup, h.doc⟩
   · simp only [h1, Bool.false_eq_true, if_false]
     by_cases h2 : (!O.valid v frame s.geom idx && !s.errs.contains (errRead O frame idx v s)) = true
@@ -140,7 +141,7 @@ inductive FixedFrom (O : Oracle G) (cfg : Cfg) : G → G → Prop where
 theorem validateOne_geom (O : Oracle G) (cfg : Cfg) (frame : List G) (idx : Nat) (v : Validator) (s : RowSt G) (g0 : G)
     (h : FixedFrom O cfg g0 s.geom) : FixedFrom O cfg g0 (validateOne O cfg frame idx v s).geom := by
   unfold validateOne
-  by_cases h1 : (v.lsOnly && !(O.kind s.geom).isLineString) = true
+  by_cases h1 : (v.lsOnly && !(O.kind s.geom).gatePass) = true
   · simp only [h1, if_true]; exact h
   · simp only [h1, Bool.false_eq_true, if_false]
     by_cases h2 : (!O.valid v frame s.geom idx && !s.errs.contains (errRead O frame idx v s)) = true
@@ -210,6 +211,22 @@ row by row, the output geometry is reachable from the input geometry by fix step
 theorem C09_geometry (O : Oracle G) (cfg : Cfg) (vs : List Validator) (frame : List G) (glob : String) :
     ∀ p ∈ List.zip frame.zipIdx (pass O cfg vs frame glob).1, FixedFrom O cfg p.1.1 p.2.1 :=
   passRows_geom O cfg vs frame _ glob
+
+/-- **The regenerated `Validation._validate` IS the model's step.** `Gen.validate_step` is regenerated from /repo on every
+run (the LINESTRING_ONLY gate incl. empty lines, the duplicate-suppressed append, the fix attempt with
+`NotImplementedError` folded into an absent result, removal of the error after a successful fix, the MAJOR-error
+short-circuit). With the validator's answers plugged in (its verdict, what its `fix_method` returns, its `ERROR` as read after
+the call) it returns exactly the geometry, error list and ignore flag of `Tval.validateOne` -- so every theorem of this
+file and of C13 about `validateOne` is a statement about the regenerated code. -/
+theorem C09_generated_validate_step (O : Oracle G) (cfg : Cfg) (frame : List G) (idx : Nat) (v : Validator) (s : RowSt G) :
+    Gen.validate_step v.lsOnly (O.kind s.geom).isLineString (O.kind s.geom == .lineEmpty) (O.kind s.geom == .multi)
+        (O.valid v frame s.geom idx) (O.fix v s.geom) (errRead O frame idx v s) cfg.majorErrors s.geom s.errs cfg.allowFix
+      = ((validateOne O cfg frame idx v s).geom, (validateOne O cfg frame idx v s).errs, (validateOne O cfg frame idx v s).ignore) := by
+  unfold Gen.validate_step validateOne applyFail GKind.gatePass
+  cases hl : v.lsOnly <;> cases hk : (O.kind s.geom).isLineString <;> cases he : (O.kind s.geom == GKind.lineEmpty) <;>
+    cases hv : O.valid v frame s.geom idx <;> cases hc : (List.elem (errRead O frame idx v s) s.errs) <;>
+    cases ha : cfg.allowFix <;> cases hf : O.fix v s.geom <;>
+    simp_all [List.elem_eq_contains, List.contains_eq_mem]
 
 /-- the regenerated validator table (order, error strings, LINESTRING_ONLY flags, which validator
 rewrites its ERROR, MAJOR sets) is the documented one -/
